@@ -1,3 +1,179 @@
+import Verif.C01.LiftProof
 import Verif.C01.Interp
+/-
+C01 — property theorems.
+
+FULL STATEMENT (the property; NOT proved as such — there is no formal semantics of Go source
+and no Lean counterpart of go/ir/builder.go in this project):
+
+    ∀ type-correct program P, function f of P, inputs x, mode m ∈ {naive, lifted} × {debug on, off}:
+      behaviour (interpret (build m P) f x) = behaviour (compiled-by-gc P f x)
+
+What is proved here, for ALL inputs, worlds and instruction semantics (unbounded):
+
+  `lift_validator_sound_partial` — whenever the validator `Core.liftCheck` accepts a pair
+  (naive function, lifted function) with SOME relation ρ of registers and SOME per-block
+  certificate, the two functions have the same behaviour (results, panic/no-panic outcome,
+  final world = heap of escaping objects + observer trace) for every argument list, every
+  initial world, every block budget and EVERY meaning of the constants, of the non-lifted
+  instructions (arithmetic, calls incl. the callee's behaviour, escaping memory, defers,
+  recover) and of branch selection.  This is the lifted-vs-naive half of the property, per
+  produced function (translation validation: the check runs the validator on the dumps of the
+  real builder on every run).
+
+  `_partial`, because (a) the validator works on the `Core` abstraction of a dump
+  (`Abstract.lean`: a non-escaping Alloc is a private cell, everything else an opaque
+  operation) — the abstraction function is trusted, compared with the reference interpreter
+  only by the differential runs; (b) functions in which lift.go split a partially escaping
+  Alloc ("split alloc") are outside the fragment: the validator reports them as `skip-split`
+  and they are covered by differential execution only; (c) the naive-vs-compiled half is
+  explored (differential execution), not proved.
+
+Further theorems: determinism of the calculus is by construction (`Core.run` is a function);
+arithmetic of the reference interpreter (`wrapInt`) is shown to be Go's modular arithmetic.
+-/
 namespace Verif.C01
+open Core
+
+/-- Soundness of the lift validator: an accepted pair of functions is behaviourally equal. -/
+theorem lift_validator_sound_partial {V W : Type} (N L : Core.Fn) (ρ : Rho) (cert : List KMap)
+    (h : liftCheck N L ρ cert = true) (S : Sem V W) (fuel : Nat) (args : List V) (w : W) :
+    exec S N fuel args w = exec S L fuel args w := by
+  have hc := checked_of_liftCheck h
+  exact run_sim hc fuel 0 none _ _ ⟨hc.entry0, init_inv hc args w⟩
+
+/-! #### non-vacuity: a loop `x := p0; for { if c(x) {break}; x = g(x) }; return x`
+
+naive: block 0 allocates cell 9, stores the parameter, jumps to the loop head 1; block 1 loads x
+(register 10), branches on `c(x)`; block 2 stores `g(x)` and jumps back; block 3 loads and returns.
+lifted: a phi (register 20) at the loop head. -/
+
+def exN : Core.Fn := { nparams := 1, recover := none, blocks := [
+  { preds := [], phis := [], body := [.alloc 9 "int", .store 9 (.reg 0)], term := .switch "jump" [] [1] },
+  { preds := [0, 2], phis := [], body := [.load 10 9, .op 11 "c" [.reg 10]], term := .switch "if" [.reg 11] [3, 2] },
+  { preds := [1], phis := [], body := [.load 12 9, .op 13 "g" [.reg 12], .store 9 (.reg 13)], term := .switch "jump" [] [1] },
+  { preds := [1], phis := [], body := [.load 14 9], term := .ret [.reg 14] }] }
+
+def exL : Core.Fn := { nparams := 1, recover := none, blocks := [
+  { preds := [], phis := [], body := [], term := .switch "jump" [] [1] },
+  { preds := [0, 2], phis := [{ reg := 20, edges := [.reg 0, .reg 23] }], body := [.op 21 "c" [.reg 20]], term := .switch "if" [.reg 21] [3, 2] },
+  { preds := [1], phis := [], body := [.op 23 "g" [.reg 20]], term := .switch "jump" [] [1] },
+  { preds := [1], phis := [], body := [], term := .ret [.reg 20] }] }
+
+def exRho : Rho := [(0, 0), (11, 21), (13, 23)]
+def exCert : List KMap := [[], [(.cell 9, .reg 20)], [(.cell 9, .reg 20)], [(.cell 9, .reg 20)]]
+
+/-- the validator accepts the correct lifting … -/
+example : liftCheck exN exL exRho exCert = true := by decide
+
+/-- … hence the two functions agree for all inputs and all semantics -/
+example {V W : Type} (S : Sem V W) (fuel : Nat) (args : List V) (w : W) :
+    exec S exN fuel args w = exec S exL fuel args w :=
+  lift_validator_sound_partial exN exL exRho exCert (by decide) S fuel args w
+
+/-- a lifting with the phi operands in the wrong order is rejected (with this certificate) -/
+def exBadHead : Core.Block :=
+  { preds := [0, 2], phis := [{ reg := 20, edges := [.reg 23, .reg 0] }], body := [.op 21 "c" [.reg 20]],
+    term := .switch "if" [.reg 21] [3, 2] }
+
+def exLbad : Core.Fn := { exL with blocks := exL.blocks.set 1 exBadHead }
+
+example : liftCheck exN exLbad exRho exCert = false := by decide
+
+/-- and it really is wrong: with `c x = (x ≥ 1)`, `g x = x + 1` on input 5 the naive function
+returns 5 while the mis-lifted one reads the not yet defined register 23 (value `undef` = 7) -/
+def exSem : Sem Nat Unit :=
+  { cval := fun _ => 0, undef := 7,
+    op := fun f a w => match f, a with
+      | "c", [x] => .ok (if x ≥ 1 then 1 else 0) w
+      | "g", [x] => .ok (x + 1) w
+      | _, _ => .abort 0 w,
+    sel := fun f a => match f, a with
+      | "if", [x] => if x = 1 then 0 else 1
+      | _, _ => 0 }
+
+def outNat : Outcome Nat Unit → Option (List Nat)
+  | .ret vs _ => some vs
+  | _ => none
+
+example : outNat (exec exSem exN 10 [5] ()) = some [5] := by decide
+example : outNat (exec exSem exL 10 [5] ()) = some [5] := by decide
+example : outNat (exec exSem exLbad 10 [5] ()) = some [7] := by decide
+
+/-! ### arithmetic of the reference interpreter -/
+
+theorem emod_eq (a b : Int) : a.emod b = a % b := rfl
+theorem pow2_pos (n : Nat) : 0 < pow2 n := by
+  unfold pow2
+  exact Int.natCast_pos.mpr (Nat.two_pow_pos n)
+theorem pow2_succ (n : Nat) : pow2 (n + 1) = 2 * pow2 n := by
+  unfold pow2
+  simp only [Int.ofNat_eq_natCast, Nat.pow_succ, Int.natCast_mul]
+  omega
+theorem pow2_pred (bits : Nat) (hb : 0 < bits) : pow2 bits = 2 * pow2 (bits - 1) := by
+  have : bits = (bits - 1) + 1 := by omega
+  rw [this, pow2_succ]; simp
+theorem wrapInt_congr (bits : Nat) (signed : Bool) (i : Int) :
+    (wrapInt bits signed i) % (pow2 bits) = i % (pow2 bits) := by
+  simp only [wrapInt, emod_eq]
+  split
+  · rw [Int.sub_emod, Int.emod_self, Int.sub_zero, Int.emod_emod, Int.emod_emod]
+  · exact Int.emod_emod _ _
+theorem wrapInt_signed_range (bits : Nat) (hb : 0 < bits) (i : Int) :
+    -pow2 (bits - 1) ≤ wrapInt bits true i ∧ wrapInt bits true i < pow2 (bits - 1) := by
+  have hp := pow2_pos bits
+  have h2 := pow2_pred bits hb
+  have h0 := Int.emod_nonneg i (show pow2 bits ≠ 0 by omega)
+  have h1 := Int.emod_lt_of_pos i hp
+  simp only [wrapInt, Bool.true_and, emod_eq]
+  split
+  · rename_i h; simp only [decide_eq_true_eq] at h; omega
+  · rename_i h; simp only [decide_eq_true_eq] at h; omega
+theorem wrapInt_id_signed (bits : Nat) (hb : 0 < bits) (i : Int)
+    (h : -pow2 (bits - 1) ≤ i ∧ i < pow2 (bits - 1)) : wrapInt bits true i = i := by
+  have h2 := pow2_pred bits hb
+  have hp := pow2_pos (bits - 1)
+  simp only [wrapInt, Bool.true_and, emod_eq]
+  by_cases hi : 0 ≤ i
+  · have : i % (pow2 bits) = i := Int.emod_eq_of_lt hi (by omega)
+    simp only [this, decide_eq_true_eq]; split <;> omega
+  · have : i % (pow2 bits) = i + pow2 bits := by
+      rw [← Int.add_mul_emod_self_left i (pow2 bits) 1, Int.mul_one]
+      exact Int.emod_eq_of_lt (by omega) (by omega)
+    simp only [this, decide_eq_true_eq]; split <;> omega
+
+/-- unsigned wrap-around: the result is the residue modulo 2^bits -/
+theorem wrapInt_unsigned_range (bits : Nat) (i : Int) :
+    0 ≤ wrapInt bits false i ∧ wrapInt bits false i < pow2 bits := by
+  have hp := pow2_pos bits
+  simp only [wrapInt, Bool.false_and, Bool.false_eq_true, if_false, emod_eq]
+  exact ⟨Int.emod_nonneg _ (by omega), Int.emod_lt_of_pos _ hp⟩
+
+example : wrapInt 8 true 200 = -56 := by decide
+example : wrapInt 8 false (-1) = 255 := by decide
+example : wrapInt 64 true (9223372036854775807 + 1) = -9223372036854775808 := by decide
+
+/-- integer division and remainder by zero panic (Go spec: run-time panic), whatever the type -/
+theorem quo_by_zero_panics (p : Prog) (rty xt yt b : Nat) (sg : Bool) (a : Int) (h : intTy p rty = some (b, sg)) :
+    execBinOp p .quo rty xt yt (.int a) (.int 0) = rtPanic "div" := by
+  simp [execBinOp, cmpRes, h]
+
+theorem rem_by_zero_panics (p : Prog) (rty xt yt b : Nat) (sg : Bool) (a : Int) (h : intTy p rty = some (b, sg)) :
+    execBinOp p .rem rty xt yt (.int a) (.int 0) = rtPanic "div" := by
+  simp [execBinOp, cmpRes, h]
+
+/-- a shift count of at least the width gives 0 for `<<` (no panic, no wrap of the count) -/
+theorem shl_large_is_zero (p : Prog) (rty xt yt b : Nat) (sg : Bool) (a k : Int) (h : intTy p rty = some (b, sg))
+    (hk : Int.ofNat b ≤ k) : execBinOp p .shl rty xt yt (.int a) (.int k) = pure (.int 0) := by
+  have h0 : ¬ k < 0 := by have : (0 : Int) ≤ Int.ofNat b := Int.natCast_nonneg b; omega
+  simp only [Int.ofNat_eq_natCast] at hk
+  simp [execBinOp, cmpRes, h, h0]
+  intro hlt; omega
+
+/-- a negative shift count panics -/
+theorem shift_negative_panics (p : Prog) (rty xt yt b : Nat) (sg : Bool) (a k : Int) (h : intTy p rty = some (b, sg))
+    (hk : k < 0) : execBinOp p .shl rty xt yt (.int a) (.int k) = rtPanic "negshift" ∧
+      execBinOp p .shr rty xt yt (.int a) (.int k) = rtPanic "negshift" := by
+  simp [execBinOp, cmpRes, h, hk]
+
 end Verif.C01
